@@ -342,17 +342,44 @@ def make_model(mspec):
       if conv or flat:
         continue
       cls = getattr(qk, l.get("rnn", "QSimpleRNN"))
+      akw = {}
+      if l.get("act"):
+        akw["activation"] = qz(l["act"], (i, "act"))
+      if l.get("ract") and l.get("rnn") == "QLSTM":
+        akw["recurrent_activation"] = qz(l["ract"], (i, "ract"))
+      if l.get("wrap") == "keras_rnn_cell":
+        # stock keras RNN around the quantized cell
+        cell = getattr(qk, l.get("rnn", "QSimpleRNN") + "Cell")(
+            2, kernel_quantizer=qz(l.get("kq"), (i, "k")),
+            recurrent_quantizer=qz(l.get("rq"), (i, "r")),
+            bias_quantizer=qz(l.get("bq"), (i, "b")),
+            state_quantizer=qz(l.get("sq"), (i, "s")), **akw)
+        x = keras.layers.RNN(cell, return_sequences=True, name=name)(x)
+        continue
+      if l.get("wrap") == "timedistributed":
+        x = keras.layers.TimeDistributed(QDense(
+            3, kernel_quantizer=qz(l.get("kq"), (i, "k")),
+            bias_quantizer=qz(l.get("bq"), (i, "b"))), name=name)(x)
+        continue
       lay = cls(2, kernel_quantizer=qz(l.get("kq"), (i, "k")),
                 recurrent_quantizer=qz(l.get("rq"), (i, "r")),
                 bias_quantizer=qz(l.get("bq"), (i, "b")),
                 state_quantizer=qz(l.get("sq"), (i, "s")),
-                return_sequences=True, name=name)
+                return_sequences=True, name=name, **akw)
+      if l.get("wrap") == "keras_bidirectional":
+        # stock keras Bidirectional around a quantized recurrent layer
+        x = keras.layers.Bidirectional(cls(
+            2, kernel_quantizer=qz(l.get("kq"), (i, "k")),
+            recurrent_quantizer=qz(l.get("rq"), (i, "r")),
+            bias_quantizer=qz(l.get("bq"), (i, "b")),
+            return_sequences=True, **akw), name=name)(x)
+        continue
       if t == "qbidir":
         lay = qk.QBidirectional(cls(
             2, kernel_quantizer=qz(l.get("kq"), (i, "k")),
             recurrent_quantizer=qz(l.get("rq"), (i, "r")),
             bias_quantizer=qz(l.get("bq"), (i, "b")),
-            return_sequences=True), name=name)
+            return_sequences=True, **akw), name=name)
       x = lay(x)
     else:
       if not flat:
@@ -369,6 +396,15 @@ def make_model(mspec):
                    activation=qz(l.get("aq"), (i, "a")), name=name)(x)
       elif t == "qact":
         x = QActivation(qz(l.get("aq"), (i, "a")), name=name)(x)
+      elif t == "nested":
+        # a nested model holding quantized layers
+        sub = keras.Sequential([
+            QDense(3, kernel_quantizer=qz(l.get("kq"), (i, "k")),
+                   bias_quantizer=qz(l.get("bq"), (i, "b")),
+                   name=name + "_d"),
+            QActivation(qz(l.get("aq"), (i, "a")), name=name + "_a")],
+                               name=name)
+        x = sub(x)
       elif t == "plain":
         x = keras.layers.Dense(3, name=name)(x)
   if not flat:
@@ -401,7 +437,13 @@ def knob_quantizers(model):
                              "layer") and v is not None and hasattr(
                                  v, "__dict__"):
         walk(v, lname, prefix + k + ".", depth + 1)
-  for layer in model.layers:
+  def every_layer(m):
+    for layer in m.layers:
+      yield layer
+      if hasattr(layer, "layers"):       # nested model
+        for sub in every_layer(layer):
+          yield sub
+  for layer in every_layer(model):
     walk(layer, layer.name, "", 0)
   return list(seen.values())
 
@@ -718,7 +760,8 @@ def gen_model(rng):
   for i in range(n):
     t = rng.wpick([("qdense", 4), ("qdense_act", 2), ("qact", 2), ("qconv", 1),
                    ("plain", 1), ("qdw", 0.6), ("qsep", 0.6), ("qpool", 0.4),
-                   ("qrnn", 0.9), ("qbidir", 0.4), ("qbn", 0.5)])
+                   ("qrnn", 1.2), ("qbidir", 0.4), ("qbn", 0.5),
+                   ("nested", 0.6)])
     first = layers[0]["t"] if layers else None
     if t in ("qconv", "qdw", "qsep", "qpool") and i > 0 and first not in (
         "qconv", "qdw", "qsep", "qpool"):
@@ -738,6 +781,15 @@ def gen_model(rng):
         l["rq"] = gen_qdesc(rng, allow_noknob=False)
       if rng.chance(0.4):
         l["sq"] = gen_qdesc(rng, allow_noknob=False)
+      if rng.chance(0.35):
+        # quantizers with the knob as (recurrent) activation
+        l["act"] = {"cls": rng.pick(["quantized_bits", "quantized_relu"]),
+                    "kw": {"bits": rng.pick([4, 6]), "integer": 1}}
+      if rng.chance(0.3):
+        l["ract"] = {"cls": "quantized_relu", "kw": {"bits": 4, "integer": 1}}
+      if t == "qrnn" and rng.chance(0.4):
+        l["wrap"] = rng.pick(["keras_rnn_cell", "timedistributed",
+                              "keras_bidirectional"])
     if t == "qsep":
       l["pq"] = gen_qdesc(rng)
     if t == "qpool" and rng.chance(0.5):
@@ -751,8 +803,10 @@ def gen_model(rng):
         l["kq"]["kw"]["qnoise_factor"] = 0.5
       layers.append(l)
       continue
+    if t == "nested":
+      l["aq"] = gen_act(rng)
     if t in ("qdense", "qdense_act", "qconv", "qdw", "qsep", "qrnn",
-             "qbidir"):
+             "qbidir", "nested"):
       if have and rng.chance(0.2):
         l["kq"] = {"share": rng.pick(have)}   # (never a quantized_linear)
       else:
@@ -784,7 +838,7 @@ def gen_cb(rng):
           "freq_type": rng.pick(["step", "epoch"]),
           "update_freq": rng.pick([1, 1, 2, 3, 5]),
           "initial": rng.pick([0, 0, 0, 1, 3, 7, 20]),
-          "exponent": rng.pick([0.5, 1.0, 2.0, 3.0]),
+          "exponent": rng.pick([0.5, 1.0, 2.0, 3.0, 3.0, 0.0]),
           "use_ste": rng.chance(0.7)}
 
 
@@ -846,6 +900,27 @@ def directed_t():
                                  {"t": "qpool", "kq": qb, "aq": {
                                      "cls": "quantized_relu", "kw": {"bits": 4}}}]},
       "dense_bn": {"layers": [{"t": "qdense", "kq": qb}, {"t": "qbn"}]},
+      "nested": {"layers": [{"t": "qdense", "kq": qb},
+                            {"t": "nested", "kq": qb, "bq": qb, "aq": {
+                                "cls": "quantized_relu", "kw": {"bits": 4}}}]},
+      "keras_rnn_cell": {"layers": [{"t": "qrnn", "rnn": "QLSTM", "kq": qb,
+                                     "rq": qb, "bq": qb,
+                                     "wrap": "keras_rnn_cell"}]},
+      "timedistributed": {"layers": [{"t": "qrnn", "kq": qb, "bq": qb,
+                                      "wrap": "timedistributed"}]},
+      "keras_bidirectional": {"layers": [{"t": "qrnn", "rnn": "QLSTM",
+                                          "kq": qb, "rq": qb, "bq": qb,
+                                          "wrap": "keras_bidirectional"}]},
+      "rnn_activations": {"layers": [{"t": "qrnn", "rnn": "QLSTM", "kq": qb,
+                                      "rq": qb, "bq": qb, "act": {
+                                          "cls": "quantized_bits", "kw": {
+                                              "bits": 6, "integer": 1}},
+                                      "ract": {"cls": "quantized_relu", "kw": {
+                                          "bits": 4, "integer": 1}}}]},
+      "bidir_activations": {"layers": [{"t": "qbidir", "rnn": "QLSTM",
+                                        "kq": qb, "rq": qb, "bq": qb, "act": {
+                                            "cls": "quantized_bits", "kw": {
+                                                "bits": 6, "integer": 1}}}]},
   }
   cbs = [
       {"start": 2, "finish": 6, "freq_type": "step", "update_freq": 1,
